@@ -428,6 +428,6 @@ def rule_ident_range(prog):
                 ok = rp.endswith(".range") and rp.startswith("token#")
         n += 1
         out.add("features::DocumentCursor::ident", "Ident.range is the byte range of the token under the cursor", ok, c.loc(cur[0]["sp"]), "")
-    if n < 4:
+    if n < 2:
         out.missing("identifier range producers (found %d)" % n)
     return out
